@@ -14,10 +14,15 @@ def spec(pid, **kw):
     return kw
 
 
-def std_pipe(ctx, name, features, binname, args='', env=None, shards=None, tier=None, seed=None, release=False):
+def std_pipe(ctx, name, features, binname, args='', env=None, shards=None, tier=None, seed=None, release=False, only=None):
+    """build the harness binary against /repo, run it (sharded) into the Lean driver; `only` is an
+    extended regex selecting the case lines that belong to the property being checked"""
     if not cargo_build(ctx, features, [binname], release=release):
         return None
-    res = pipe(ctx, name, (bin_path(binname, release) + ' ' + args).strip(), env=env, shards=shards, tier=tier, seed=seed)
+    cmd = (bin_path(binname, release, features) + ' ' + args).strip()
+    if only:
+        cmd += " | { grep -E '%s' || true; }" % only
+    res = pipe(ctx, name, cmd, env=env, shards=shards, tier=tier, seed=seed)
     absorb(ctx, res, name)
     return res
 
@@ -52,7 +57,7 @@ def search_with(run_fn, seeds=(7, 11, 13)):
 
 def run_c03(ctx, tier=None, seed=None):
     env = {'VERIF_LINES': 'conv'}
-    std_pipe(ctx, 'conv-si', 'fl', 'conv', 'si', env=env, tier=tier, seed=seed)
+    std_pipe(ctx, 'conv-si', 'fl,allsi', 'conv', 'si', env=env, tier=tier, seed=seed)
     std_pipe(ctx, 'conv-bases', 'fl', 'conv', 'others', env=env, tier=tier, seed=seed)
 
 
@@ -79,6 +84,166 @@ spec('C16',
           'values as for C03 plus half-integers; non-trivial as for C03',
      trusted_base=['powi results are taken from the implementation'],
      assumptions=['oracle applies when no intermediate over/underflows'])
+
+
+# ------------------------------------------------------------------------------------------------
+# operator properties
+
+CMP_FORMS = 'eq|ne|lt|le|gt|ge|pcmp|cmp|ordmax|ordmin|clamp:[^ ]*'
+
+
+def run_c06(ctx, tier=None, seed=None):
+    # mixed-base operand pairs only (ul != ur): floats, BigRational, BigInt
+    only = r'^(bin|mad|from) '
+    std_pipe(ctx, 'ops-mixed', 'wide', 'ops', 'mixed', tier=tier, seed=seed, only=only)
+
+
+spec('C06', run=run_c06, search=search_with(run_c06),
+     rule='7 ordered pairs of base-unit sets (si,cgs,kgh,fpm,mmm,onlyth) × 11 same-dimension quantities (incl. angle/information/surface-tension kinds, '
+          'TT±TI) × 13 forms, 7 mul/div dimension pairs, mul_add and hypot over three base sets, 9 kind-conversion pairs; f32, f64 (bit-exact vs model, '
+          'exact-rational oracle), BigRational and BigInt (exact); non-trivial = base sets differ or operands differ',
+     trusted_base=['powi results are taken from the implementation', 'hypot is a libm parameter: only the oracle applies'],
+     assumptions=['float oracles apply only when change_base stays in the normal range; remainder has no accuracy oracle (discontinuous)'])
+
+
+def run_c07(ctx, tier=None, seed=None):
+    not_cmp = r'^(b2|sc|un|sum|zero) \S+ (?!(%s) )' % CMP_FORMS
+    # grep -E has no look-ahead: select by listing the non-comparison forms instead
+    forms = 'add|sub|rem|mul|div|adda|suba|rema|mulk|divk|kmul|kdiv|mulka|divka|is_zero|neg|abs|signum|satadd|satsub|fmax|fmin|hypot|atan2|recip|sqrt|cbrt|powi2|powi-3|classify|is_nan|is_infinite|is_finite|is_normal|is_sign_positive|is_sign_negative|mul_add:[^ ]*'
+    only = r'^((b2|sc|un) [^ ]+ (%s) |sum |zero )' % forms
+    std_pipe(ctx, 'hist-all-types', 'wide', 'hist', '', tier=tier, seed=seed, only=only)
+    std_pipe(ctx, 'ops-same-base', 'fl', 'ops', 'same', tier=tier, seed=seed, only=r'^bin [^ ]+ (add|sub|rem|adda|suba|rema|mul|div|tt[^ ]*|ti[^ ]*) ')
+
+
+spec('C07', run=run_c07, search=search_with(run_c07),
+     rule='11 storage types × 6 quantities (default and non-default base units: si, cgs, kgh, fpm, mmm; angle, information, temperature-interval kinds) × '
+          'every same-base form (arithmetic, assigning, scaling, sign, min/max, saturating, Sum, zero/default/ZERO, classification, recip/sqrt/cbrt/powi/mul_add) '
+          'and seeded histories (chains where each step starts from the previous register); values incl. NaN, ±inf, ±0, extreme integers; '
+          'non-trivial = operands differ',
+     trusted_base=['the bare-number operation is computed by rustc on the storage type (the model recomputes + − × ÷ % and comparisons for every type)'],
+     assumptions=['fixed-width rational results are only judged by the model while numerators/denominators stay below 2^31 (the oracle quantity=raw applies always)'])
+
+
+def run_c10(ctx, tier=None, seed=None):
+    std_pipe(ctx, 'hist-cmp', 'wide', 'hist', '', tier=tier, seed=seed, only=r'^b2 [^ ]+ (%s) ' % CMP_FORMS)
+    std_pipe(ctx, 'ops-cmp', 'wide', 'ops', 'all', tier=tier, seed=seed, only=r'^bin [^ ]+ (eq|ne|lt|le|gt|ge|pcmp) ')
+
+
+spec('C10', run=run_c10, search=search_with(run_c10),
+     rule='all ten comparison observables (== != < <= > >= partial_cmp cmp max min clamp) on 11 storage types same-base (default and non-default base units) and on '
+          'f32/f64/BigRational/BigInt mixed-base pairs; values incl. NaN, ±0, ±inf, adjacent floats, extreme integers, equal operands; non-trivial = operands differ or bases differ',
+     trusted_base=['powi results are taken from the implementation'],
+     assumptions=['mixed-base float comparisons are judged by the oracle only when the magnitudes differ by more than 4u'])
+
+
+def run_c15(ctx, tier=None, seed=None):
+    std_pipe(ctx, 'ops-from', 'wide', 'ops', 'all', tier=tier, seed=seed, only=r'^from ')
+
+
+spec('C15', run=run_c15, search=search_with(run_c15),
+     rule='9 special-kind/default-kind quantity pairs (angle, solid angle, information, information rate, angular velocity, surface tension, kinematic viscosity, '
+          'mass concentration) × both directions × same and different base-unit sets × f32, f64, BigRational, BigInt; every conversion non-trivial by construction',
+     trusted_base=['negative programs (conversions that must not exist) are decided by the Lean theorem from_exists_iff over the regenerated impl_from! list and by the C02 rustc probes'],
+     assumptions=[])
+
+
+# ------------------------------------------------------------------------------------------------
+# C17: the same seeded transcript under the four feature sets
+
+C17_SETS = ['fl', 'fl-noauto', 'fl-nostd', 'fl-nostd-noauto']
+C17_RUNS = [('ops', 'same'), ('conv', 'others')]
+
+
+def _is_zero_hex(h):
+    try:
+        return int(h, 16) & ((1 << (4 * len(h) - 1)) - 1) == 0
+    except ValueError:
+        return False
+
+
+def run_c17(ctx, tier=None, seed=None):
+    from main import load_known, kf_entry
+    import hashlib
+    import subprocess
+    tier = tier or ctx.tier
+    seed = ctx.seed if seed is None else seed
+    outdir = os.path.join(VERIF, 'build', 'c17')
+    os.makedirs(outdir, exist_ok=True)
+    files = {}
+    from concurrent.futures import ThreadPoolExecutor
+    with ThreadPoolExecutor(max_workers=4) as ex:
+        oks = list(ex.map(lambda fs: cargo_build(ctx, fs, ['ops', 'conv']), C17_SETS))
+    if not all(oks):
+        return
+    env = dict(os.environ)
+    env.update({'VERIF_SEED': str(seed), 'VERIF_TIER': tier, 'VERIF_N': '120' if tier == 'thorough' else '24',
+                'VERIF_NRANDOM': '24' if tier == 'thorough' else '4'})
+    env.pop('VERIF_SHARD', None)
+    jobs = []
+    for fs in C17_SETS:
+        for b, arg in C17_RUNS:
+            path = os.path.join(outdir, '%s.%s.txt' % (fs, b))
+            files[(fs, b)] = path
+            jobs.append(subprocess.Popen('%s %s > %s' % (bin_path(b, False, fs), arg, path), shell=True, env=env))
+    for j in jobs:
+        if j.wait() != 0:
+            ctx.problems.append(Problem('harness-broken', 'transcript run failed'))
+            return
+    lines = {k: open(v, encoding='utf-8').read().splitlines() for k, v in files.items()}
+    digests = {('%s.%s' % k): hashlib.sha256('\n'.join(v).encode()).hexdigest()[:16] for k, v in lines.items()}
+    ctx.extra['transcript_sha256'] = digests
+    total = sum(len(v) for v in lines.values())
+    ctx.extra['evaluations'] = total
+    ctx.extra['distinct_nontrivial'] = len(set(l for k, v in lines.items() if k[0] == 'fl' for l in v))
+    ctx.extra['samples'] = [lines[('fl', 'ops')][i] for i in (5, 700)] + [lines[('fl', 'conv')][40]]
+    kf = load_known()
+    f8 = kf_entry(kf, 'F8')
+    allowed = set(tuple(x) for x in (f8 or {}).get('key', {}).get('allowed', []))
+    names = ['floor', 'ceil', 'round', 'trunc', 'fract']
+
+    def compare(a, b, what, std_pair):
+        la, lb = lines[a], lines[b]
+        if len(la) != len(lb):
+            ctx.problems.append(Problem('property-fails', '%s: transcripts have different lengths (%d vs %d)' % (what, len(la), len(lb)),
+                                        line=(la[:1] or [''])[0], failing_input=True, cmd='%s vs %s' % (files[a], files[b])))
+            return
+        n_known = 0
+        for x, y in zip(la, lb):
+            if x == y:
+                continue
+            fx, fy = x.split(' '), y.split(' ')
+            ok = False
+            if std_pair and fx[0] == 'rnd' and len(fx) == len(fy) == 15 and fx[:10] == fy[:10]:
+                d = [i for i in range(10, 15) if fx[i] != fy[i]]
+                ok = all((fx[1], names[i - 10], fx[i], fy[i]) in allowed for i in d)
+            if ok:
+                n_known += 1
+                continue
+            ctx.problems.append(Problem('property-fails', '%s: results differ between feature sets %s and %s' % (what, a[0], b[0]),
+                                        detail='%s\n%s' % (x, y), line=x, failing_input=True, cmd='%s vs %s' % (files[a], files[b])))
+            if sum(1 for p in ctx.problems if p.kind == 'property-fails') > 20:
+                break
+        if n_known and f8 and f8['id'] not in [k['id'] for k in ctx.known]:
+            ctx.known.append(f8)
+        ctx.counts['c17:%s:known-differences' % what] = n_known
+
+    for b, _ in C17_RUNS:
+        compare(('fl', b), ('fl-noauto', b), 'autoconvert on/off, std, %s' % b, False)
+        compare(('fl-nostd', b), ('fl-nostd-noauto', b), 'autoconvert on/off, no_std, %s' % b, False)
+        compare(('fl', b), ('fl-nostd', b), 'std on/off, %s' % b, True)
+    # the transcripts of the non-default configurations also go through the model
+    for fs in ('fl-noauto', 'fl-nostd'):
+        for b, arg in C17_RUNS:
+            res = pipe(ctx, 'model-%s-%s' % (fs, b), "cat %s | { grep -E '^(bin|from|conv) ' || true; }" % files[(fs, b)], shards=1, tier=tier, seed=seed)
+            absorb(ctx, res, 'model-%s-%s' % (fs, b))
+
+
+spec('C17', run=run_c17, search=None,
+     rule='one seeded transcript per feature set {autoconvert on,off} × {std on,off}: every same-base binary form of 11 quantities × 4 base-unit sets × f32/f64 '
+          '(ops same) and construction/read-back/rounding of 140 units × 9 base-unit sets (conv others); transcripts must be byte-identical; the non-default '
+          'configurations are additionally run through the Lean model; non-trivial = distinct lines of the default-feature transcript',
+     trusted_base=['mixed-base operands being rejected without autoconvert is decided by the C02 rustc probes'],
+     assumptions=['the harness itself links std in every configuration; only uom (and num-traits) are built without it'])
 
 
 def replay(ctx, spec_, path):
